@@ -1,4 +1,78 @@
-/- Line protocol of C07: placeholder until the model of this property is built. -/
+import BertE.Gen.Reactor
+import BertE.Model.Reactor
+/- Line protocol of C07 (`handle_comments`):
+     `<cmdline-keys|-> <admins|-> <prAuthor> <robot> <authorBypassKeys|-> [<author>:<hex of text>]*`
+   (lists comma separated; comment text hex encoded, two digits per ASCII character).
+   Answer: `ok <state> <eff>` | `cmd <name> <hexargs|-> <state> <eff>` | `err <Class> <hex keyword> <author> <selfPr>` |
+           `crash <why>`
+   `<state>`: the option values in registry order, `;` separated: `F` `T` `N` `s<hex>` `{<hex>,..}` (sorted);
+   `<eff>`: one `0`/`1` per bypass helper of `Gen.Reactor.bypassHelpers`. -/
 namespace BertE.Drv.C07
-def handle (_args : List String) : String := "bad-op"
+open BertE.Reactor
+
+def genRegistry : Registry := BertE.Gen.Reactor.registry
+
+def hexDigit (n : Nat) : Char := if n < 10 then Char.ofNat (48 + n) else Char.ofNat (87 + n)
+
+def hexOfChars (s : List Char) : String :=
+  String.ofList (s.flatMap (fun c => [hexDigit (c.toNat / 16 % 16), hexDigit (c.toNat % 16)]))
+
+def hexVal (c : Char) : Option Nat :=
+  if c.isDigit then some (c.toNat - 48)
+  else if 'a'.toNat ≤ c.toNat && c.toNat ≤ 'f'.toNat then some (c.toNat - 87)
+  else none
+
+def unhex : List Char → Option (List Char)
+  | [] => some []
+  | a :: b :: r =>
+    match hexVal a, hexVal b, unhex r with
+    | some x, some y, some t => some (Char.ofNat (16 * x + y) :: t)
+    | _, _, _ => none
+  | _ => none
+
+def csv (s : String) : List String := if s == "-" then [] else s.splitOn ","
+
+def showVal : Val → String
+  | .none => "N"
+  | .bool true => "T"
+  | .bool false => "F"
+  | .str s => "s" ++ hexOfChars s.toList
+  | .set xs => "{" ++ ",".intercalate ((xs.mergeSort (fun a b => a ≤ b)).map (fun x => hexOfChars x.toList)) ++ "}"
+
+def showState (reg : Registry) (st : State) : String :=
+  ";".intercalate (reg.options.map (fun o => match st.get o.name with | some v => showVal v | none => "?"))
+
+def showEff (env : Env) (st : State) : String :=
+  String.ofList (BertE.Gen.Reactor.bypassHelpers.map (fun h => if bypassActive env st h.2.1 h.2.2 then '1' else '0'))
+
+def showArgs (args : List String) : String :=
+  if args.isEmpty then "-" else ",".intercalate (args.map (fun a => hexOfChars a.toList))
+
+def b01 (b : Bool) : String := if b then "1" else "0"
+
+def showOutcome (reg : Registry) (env : Env) : Outcome → String
+  | .ok st => s!"ok {showState reg st} {showEff env st}"
+  | .command st n args => s!"cmd {hexOfChars n.toList} {showArgs args} {showState reg st} {showEff env st}"
+  | .error (.unknownCommand k a) => s!"err UnknownCommand {hexOfChars k.toList} {a} 0"
+  | .error (.notEnoughCredentials k a s) => s!"err NotEnoughCredentials {hexOfChars k.toList} {a} {b01 s}"
+  | .error (.notAuthor k a) => s!"err NotAuthor {hexOfChars k.toList} {a} 0"
+  | .error .incorrectSyntax => "err IncorrectCommandSyntax"
+  | .crash w => s!"crash {w}"
+
+def parseComment (s : String) : Option Comment :=
+  match s.splitOn ":" with
+  | [a, h] => (unhex h.toList).map (fun t => ⟨a, t⟩)
+  | _ => none
+
+def handle (args : List String) : String :=
+  match args with
+  | cl :: adm :: pra :: rob :: ab :: cs =>
+    match cs.mapM parseComment with
+    | some comments =>
+      let reg := genRegistry.withCmdLine (csv cl)
+      let env : Env := ⟨csv adm, pra, rob, csv ab⟩
+      showOutcome reg env (handleComments reg env comments)
+    | none => "bad-op"
+  | _ => "bad-op"
+
 end BertE.Drv.C07
